@@ -56,6 +56,18 @@ static LineCase gen_line(Chooser &ch, int min_coords)
   m.kernel = ctr;
   const int nc = static_cast<int>(ch.range(min_coords, 5));
   m.coords = g::trench(ch, lc.fr, ctr, nc, 25);
+  if (lc.fr.sph)
+    {
+      // ... the whole trench, not only its first coordinate (on a small planet 700 km are 23 degrees): shift it towards the equator
+      double lo = 1e9, hi = -1e9;
+      for (auto &p : m.coords) { lo = std::min(lo, p[1]); hi = std::max(hi, p[1]); }
+      double shift = 0;
+      if (hi > 55) shift = 55 - hi;
+      if (lo + shift < -55) shift = -55 - lo;
+      if (hi + shift > 60) { for (auto &p : m.coords) p[1] = 0.5 * p[1]; shift = 0; } // spans more than 110 degrees of latitude: compress
+      for (auto &p : m.coords) p[1] += shift;
+      m.kernel = m.coords[0];
+    }
   J feat = J::obj();
   feat["model"] = type; feat["name"] = "line";
   feat["coordinates"] = g::coords_json(m.coords);
